@@ -7,6 +7,8 @@ import re
 
 from ..core import (AnalysisError, assigned_targets, body_nodes, call_name, decorators, dotted,
                     key_text, kwarg, params, param_defaults, parent, stmts_of, unparse)
+from ..normal import inline_temps
+from ..pattern import guards_of
 from ..own import FuncInfo, Own
 from ..pyx import load_pyx
 
@@ -376,14 +378,23 @@ def check_precondition_delegation(prog, rep):
     m = prog.module(NPC)
     f = m.func('tensordot')
     rep.instance('PAIR-precondition', {'function': 'tensordot'})
-    src = unparse(f)
-    ok = 'no_block = a.stored_blocks == 0 or b.stored_blocks == 0' in src and \
-        'one_block = a.stored_blocks == 1 and b.stored_blocks == 1' in src and \
-        'elif no_block or one_block' in src
-    if not ok:
-        rep.violation('PAIR-precondition', m, 'tensordot', 'trivial-cases',
-                      'tensordot() must branch on the 0-block / 1-block cases before calling the '
-                      'worker (the compiled worker assumes blocks exist)', f.lineno)
+    nf = inline_temps(f)
+    calls = [c for c in body_nodes(nf) if isinstance(c, ast.Call) and
+             call_name(c) == '_tensordot_worker']
+    if not calls:
+        raise AnalysisError('tensordot: call of _tensordot_worker not found')
+    for c in calls:
+        g = {(t, pol) for t, pol, _ in guards_of(nf, parent_stmt(c))}
+        need = [('a.stored_blocks == 0', False), ('b.stored_blocks == 0', False)]
+        missing = [t for t, pol in need if (t, pol) not in g]
+        rep.instance('PAIR-precondition', {'call': unparse(c), 'guards': sorted(
+            '%s%s' % ('' if pol else 'not ', t) for t, pol in g)})
+        if missing:
+            rep.violation('PAIR-precondition', m, 'tensordot', 'trivial-cases',
+                          'tensordot() must handle the 0-block case itself: the call `%s` is '
+                          'reachable without `%s` being excluded (the compiled worker assumes '
+                          'both operands have blocks)' % (unparse(c), ' / '.join(missing)),
+                          f.lineno)
 
 
 def check_stale_extension(prog, rep):
